@@ -59,6 +59,24 @@ CHECKS["C14"] = src("MC_Sched.tla: K iterators (same generator function several 
 CHECKS["C04"] = src("CoSource.tla embeds Go's range semantics (RangeSem.tla: expression evaluated once, header snapshot with live element reads for slices, COPY for arrays, byte offsets/U+FFFD for strings, 0..n-1, channel until close; `:=` declares per-iteration variables, `=` assigns function-level ones, blank/omitted forms). TLC enumerates the family: collection kind x variable form x range expression as variable or call x body (yield key/value, mutations of the collections, guarded break/continue, nesting, the loop inside a closure nested in the generator) and emits expected traces; each program goes through the real compiler and is compared. Map range loops inside generators (unspecified order; delete/insert during the loop; nil interface keys/values) are compiled, drained, and their recorder logs validated as traces against Trace_Map.tla.",
   "Known finding KF03b (arrays ranged live instead of over a copy) is a named as-built clause in RangeNext; TLC emits the ideal and the as-built expectation and only an exact match of the latter is reported as KNOWN-FINDING. Bounded: loop + 1 (quick) / 2 (thorough) body statements, fixed small collections.", "7 C04, 3.7")
 
+CHECKS["C07"] = dict(level="translation_validation",
+  technique="TLA+-enumerated program families (TLC) compiled once; the unoptimised stage kept by the verif hook and the optimised output are both built and run on the same drivers and compared case by case; the CoSource trace names the side that is wrong",
+  text="For every program of the families F_opt (closures of eta shape with every callee kind: reassigned function variable as loop condition, method value with reassigned receiver, package function, generic instance, builtin, conversion), F_expr (expression shapes of yielded values: what Delay elision may touch) and F_ctl, TLC enumerates the programs and tapes; the real compiler runs once per package with GOCO_VERIF_STAGE_DIR set (build tag verif) so that <dst>_tmp survives; stage and output are built side by side and every case is run on both: differing value sequences or effect interleavings, or an output that does not build while the stage does, is a violation.",
+  note="The stage copy still imports the API (import clean-up is part of the optimiser): exactly the imports go build reports as unused are stripped from the COPY. Trusted: TLC, renderers, the hook (one added call at the end of Compile / GoGen, no-op without the tag).",
+  design="7 C07, 9")
+CHECKS["C13"] = src("Bystander family F_by: plain functions (no yield) that live in processed files, built from the closures of eta shape with every callee kind, loops over a reassigned function variable, effects; CoSource runs them eagerly; the generated file's version is called once and its effect log and result compared; the package additionally carries a constant, an initialised variable, a local type with method, a side-effect import and an import used only by non-generator code, whose values/presence are compared too. F_opt: the same closures inside generator bodies, judged per call against the specification. A bystander whose generated version does not build is a violation of this property as well.",
+  "Native reference: the same functions compiled directly (nat package). Bounded: size 3/4.", "7 C13")
+CHECKS["C15"] = dict(level="model_checking",
+  technique="TLA+ specification of the tool's file-level contract (Pipeline.tla); TLC enumerates scenario scripts and checks the design-level invariants; scripts replayed on the real tool, recorded directory snapshots validated by trace validation (Trace_Pipeline.tla) with the content function inferred",
+  text="MC_Pipeline.tla explores every script of up to 3-4 actions (run the tool in p/ or q/, add/remove unrelated files and packages, edit the source, plant a stale temporary directory) over a universe of files and checks idempotence / outputs-are-functions / no-output-without-use on the ideal tool. A seeded selection of the scripts is replayed on the real tool in production mode; the snapshots (path, sha256, build constraint, header) before and after every run are validated by Trace_Pipeline.tla, whose inferred function source-content -> output-content must remain a function across all runs of all scenarios: same source => same bytes regardless of other files, packages, earlier outputs and run order. The first source version has sequential and nested range loops of one kind (unique helper identifiers: output must build).",
+  note="Byte identity is measured by the harness (sha256); TLA+ sees content ids. Selection: 48 (quick) / 400 (thorough) of the enumerated scripts, chosen by VERIF_SEED.",
+  design="7 C15, 3.9")
+CHECKS["C16"] = dict(level="model_checking",
+  technique="same specification and trace validation as C15, entry point go generate -> cmd/cogen; additional obligations per tool run: go build / go test without the tag, go vet -tags co; module-root layout",
+  text="The scenarios of MC_Pipeline.tla replayed through `go generate -tags co` (the //go:generate directive runs cmd/cogen in the package directory). Trace_Pipeline.tla requires after every run: for each *_co.go / *_co_test.go using the API exactly the derived sibling with the !co constraint and the generated-code header; nothing else created, modified or left behind (no temporary directory); go build and go test succeed without the tag; the package still type-checks with it; a later run reproduces the same bytes (idempotence via the inferred function). A source that imports but does not use the API yields no file.",
+  note="Known finding KF12 (package directory = module root: nothing is written) is the named as-built clause RootAsBuilt of Trace_Pipeline.tla, used only for that layout and only when the ideal specification rejects the run.",
+  design="7 C16, 3.9")
+
 NOT_YET = {}
 
 def main():
